@@ -125,16 +125,16 @@ impl Model for MA {
         if kind == 3 {
             // four passes without echoes: the last keepalive arms a probe (RTT sample older than 3 s)
             for _ in 0..4 {
-                self.step_ev(env, &mut s, Ev::Hk(1000)).expect("scripted prefix");
+                if let Err(f) = self.step_ev(env, &mut s, Ev::Hk(1000)) { engine::prefix_fail(f); }
             }
             assert!(s.w.connections[1].rtt.waiting_for_keepalive_response, "scripted state: no probe armed on link 1");
-            self.step_ev(env, &mut s, Ev::Fclose(1)).expect("scripted prefix");
+            if let Err(f) = self.step_ev(env, &mut s, Ev::Fclose(1)) { engine::prefix_fail(f); }
             // only a threshold flush that fails resets the link (the periodic flush just logs)
             for _ in 0..40 {
                 if !s.w.connections[1].connected {
                     break;
                 }
-                self.step_ev(env, &mut s, Ev::Burst).expect("scripted prefix");
+                if let Err(f) = self.step_ev(env, &mut s, Ev::Burst) { engine::prefix_fail(f); }
                 if std::env::var("VERIF_TRACE").is_ok() {
                     eprintln!("TRACE S6 burst: {:?}", s.w.connections.iter().map(|c| (c.connected, c.in_flight_packets, c.window, c.has_queued_packets(), c.is_stall_gated())).collect::<Vec<_>>());
                 }
